@@ -317,7 +317,8 @@ func checkC19(c *c19Case) error {
 
 // ---- generation ----
 
-var intTags = []string{"count(*)", "count(node())", "string-length()", "7", "2.7", "count(@*)", "position()", "@n", "a[1]", "string-length(name())"}
+var intTags = []string{"count(*)", "count(node())", "string-length()", "7", "2.7", "count(@*)", "position()", "@n", "a[1]", "string-length(name())",
+	"200", "40000", "3000000000", "10000000000000000000", "18446744073709549568", "127", "255", "65535", "2147483647", "9007199254740993"}
 var signedTags = []string{"-3", "0 - count(*)", "-2.7"}
 var strTags = []string{"name()", ".", "@id", "normalize-space()", "concat(name(), '-', @id)", "a", "'lit'", "string(*[1])", "..", "text()"}
 var boolTags = []string{"a", "@id", "true()", "false()", "count(*) > 1", "not(*)", "'x'", "0"}
@@ -344,7 +345,7 @@ func genField(t *rapid.T, depth int, idx int) fdesc {
 		f.T, f.Tag = &tdesc{Kind: kind}, pick(t, "intTag", append(append([]string{}, intTags...), signedTags...))
 	case k == 4:
 		kind := []string{"uint", "uint8", "uint16", "uint32", "uint64"}[rapid.IntRange(0, 4).Draw(t, "uintKind")]
-		f.T, f.Tag = &tdesc{Kind: kind}, pick(t, "uintTag", intTags[:7])
+		f.T, f.Tag = &tdesc{Kind: kind}, pick(t, "uintTag", append(append([]string{}, intTags[:7]...), intTags[10:]...))
 	case k == 5:
 		kind := []string{"float32", "float64"}[rapid.IntRange(0, 1).Draw(t, "floatKind")]
 		f.T, f.Tag = &tdesc{Kind: kind}, pick(t, "floatTag", floatTags)
@@ -492,6 +493,15 @@ func checkC19Bad(c *c19BadCase) error {
 		target = &mapField{}
 	case "array field":
 		target = &arrayField{}
+	case "pointer to nil slice pointer":
+		var ps *[]string
+		target = &ps
+	case "pointer to pointer to nil struct pointer":
+		pp := &nilPtr
+		target = &pp
+	case "pointer to nil pointer to slice of structs":
+		var ps *[]S
+		target = &ps
 	case "int":
 		i := 0
 		target = &i
@@ -551,7 +561,8 @@ func TestC19(t *testing.T) {
 		c19Fill.run(t, c)
 	})
 	runProp(t, "unsupported", 2000, 50000, func(t *rapid.T) {
-		kinds := []string{"nil", "non-pointer struct", "nil pointer", "pointer to nil pointer", "map", "array", "chan", "func", "2-D slice", "unexported tagged field", "interface field", "map field", "array field", "int", "string"}
+		kinds := []string{"nil", "non-pointer struct", "nil pointer", "pointer to nil pointer", "map", "array", "chan", "func", "2-D slice", "unexported tagged field", "interface field", "map field", "array field", "int", "string",
+			"pointer to nil slice pointer", "pointer to pointer to nil struct pointer", "pointer to nil pointer to slice of structs"}
 		c := &c19BadCase{Events: xmodel.Gen(t, c19Doc()), Target: kinds[rapid.IntRange(0, len(kinds)-1).Draw(t, "kind")],
 			Select: pick(t, "select", []string{"/*", "//a", "/nosuch", "//*", "1", "'s'", "true()"})}
 		st.Class("unsupported " + c.Target)
